@@ -18,7 +18,10 @@ RULE = (
     "member by absolute index); only well-formed transactions are witnesses. Witness found => the detector must "
     "report >= 1 path. Nothing is demanded without a witness. Non-trivial (per program x detector) = the program "
     "checks a governed field of the detector and the search saw both an accepted and a rejected dangerous "
-    "execution, or only rejected ones; distinct by (source, detector)."
+    "execution, or only rejected ones; distinct by (source, detector). single: the finite family of single direct "
+    "checks (one comparison of one governed field with one constant - all operators, both operand orders, plain "
+    "and negated, consumed by assert/return/bz/bnz, every constant of the pools incl. the boundary values and "
+    "named spellings) is enumerated exhaustively under the same witness oracle."
 )
 ASSUMPTIONS = ["R-AVM is the reference interpreter; the witness search is capped (a cap can hide a violation, never invent one)"]
 
@@ -61,9 +64,34 @@ def check(case):
     return {"nontrivial_keys": nt_keys, "features": feats, "counters": counters, "evaluations": len(names)}
 
 
+def check_single(case):
+    """single direct checks (exhaustive family): a witness obliges each detector the check can decide"""
+    an = Analysed(case)
+    g = an.g
+    names = case["detectors"]
+    try:
+        res = adapter.run_detectors(an.tealer, names)
+    except adapter.TealerCrash as e:
+        raise Violation("detector-crash", f"{e}\n{g.text}")
+    counters = {"witnesses": 0, "no_witness": 0}
+    for det in names:
+        wit, _rejected, capped = find_witness(g, det, an.mode, cap=600)
+        if wit is None:
+            counters["no_witness"] += int(not capped)
+            continue
+        counters["witnesses"] += 1
+        env, r = wit
+        if len(res[det].paths) == 0:
+            raise Violation("missed", f"{det}: single check {case['desc']}: the contract approves a transaction carrying the dangerous value ({env.describe()}) but the detector reports no path\n{g.text}", {"detector": det})
+    return {"nontrivial": case["nt"], "key": case_hash(g.text), "features": [case["desc"].split(":")[0]], "counters": counters, "evaluations": len(names)}
+
+
 def components(tier, disabled):
     q = tier == "quick"
+    from vf.props.single_family import single_cases
+
     return {
+        "single": {"enumerate": single_cases, "check": check_single, "exhaustive": True, "shards": 16, "sample": lambda c, i: c["desc"]},
         "lsig": {"strategy": semantic_program(profile="modelled", disabled=disabled, max_stmts=(12 if q else 18), mode="lsig"),
                  "check": check, "examples": 1400 if q else 80000, "sample": lambda c, i: RCFG(c).text},
         "app": {"strategy": semantic_program(profile="modelled", disabled=disabled, max_stmts=(12 if q else 18), mode="app"),
